@@ -105,7 +105,7 @@ PROPS = {
         ],
     },
     'C01': {
-        'v_units': ['split', 'switch'],
+        'v_units': ['split', 'switch', 'phrase'],
         'k_units': ['splitk'],
         'level': 'other',
         'explanation': (
@@ -119,36 +119,50 @@ PROPS = {
             '2.6.2. Kani (bounded, concrete enumeration: IFS from five fixed values, inputs of <= 2 characters quick / 3 thorough) '
             'runs the real Ifs::new / non_whitespaces / classify_attr / Ranges::next against an executable reference splitter: '
             'it covers what the Verus unit leaves uninterpreted (membership in IFS) and yields counterexamples. Level is "other" '
-            'because of the bounded part. Not decided here: the remaining parameter-expansion modifiers (trim, length), '
-            'nounset, "$@"/$* joining (Phrase::append / ifs_join), quote removal, the read built-in, the lexer -- all of which '
-            'run through async code over Env or through Vec::drain/extend forms outside the verifier\'s subset; a change there is '
-            'not seen by this check.'),
+            'because of the bounded part. Verus further proves the field-list algebra behind "$@" inside a word '
+            '(yash-semantics/src/expansion/phrase.rs Phrase::append, add_assign, field_count, is_zero_fields, zero_fields, '
+            'one_empty_field): a phrase denotes a list of fields, appending joins the last field of the left list with the first '
+            'field of the right list and an empty list is the unit, in all nine representation cases, with `other` left empty. '
+            'Not decided here: the remaining parameter-expansion modifiers (trim, length), nounset, $* joining with the first IFS '
+            'character (Phrase::ifs_join), quote removal, the read built-in, the lexer -- all of which run through async code over '
+            'Env or through string iteration outside the verifier\'s subset; a change there is not seen by this check.'),
         'trusted_base': ['Verus 0.2026.09.13 + Z3', 'vstd iterator model (IteratorSpec: prophetic remaining())', '/verif/tools/vextract.py'],
         'assumptions': [
             'membership of a character in IFS / in its non-white-space part (str::contains) is uninterpreted: Ifs::is_ifs and is_ifs_non_whitespace are external_body',
             'the inner character iterator obeys vstd\'s iterator laws (a precondition of the contract)',
             'Iterator::next for Ranges is checked as an inherent method with the same body (impl header replaced)',
             'the reference splitter (contracts/v/split/prelude.rs) is the reading of XCU 2.6.5 the contract is stated against',
+            'Phrase::append: `left.extend(right.drain(1..))` is checked as a call of a helper with that body and an assumed contract (rewrite rule tokens-to-helper); mem::replace has an assumed contract',
         ],
     },
     'C04': {
-        'v_units': ['fnparse'],
+        'v_units': ['fnparse', 'fnregex'],
         'k_units': ['fnmatch'],
         'level': 'other',
         'explanation': (
-            'Translation kernel only. Kani checks on the real yash-fnmatch code that every ASCII literal character is '
-            'emitted into the regex as that literal character (Atom::Char outside a class; BracketAtom::Char, range end '
-            'points, one-character collating symbols and equivalence classes inside a class: unescaped iff not special '
-            'there, otherwise escaped and escapable), that ? and * become . and .*, and that an unclosed [ is literal; '
-            'Verus proves make_range (the range former of the bracket parser) folds exactly member - member. '
-            'Bounded: ASCII only (128 concrete executions per emitter), one-character collating symbols. NOT checked: the '
-            'bracket parser as a whole (quoted characters inside brackets: finding F2 in DESIGN.md was observed by running '
-            'the code but no contract within reach of either verifier decides it), non-ASCII characters, the regex engine, '
-            'trim_value / case.'),
+            'Translation kernel only. Verus proves on the real yash-fnmatch/src/ast/regex.rs, for EVERY character (non-ASCII '
+            'included), that a literal pattern character is written into the regex as text that denotes exactly that character: '
+            'unescaped iff it is not special in that position (outside / inside a character class), otherwise as backslash + '
+            'character with the character escapable (BracketAtom::fmt_regex_char, Atom::fmt_regex), that ? and * become . and .*, '
+            'and that a range item is written as start, an unescaped hyphen, end (BracketItem::fmt_regex); the character sets the '
+            'code tests against are read from its two string constants on every run (their characters proved with '
+            'reveal_strlit). Verus also proves that the pattern PARSER (yash-fnmatch/src/ast.rs Ast::new, ast/parse.rs Atom::parse, '
+            'Bracket::parse, make_range) returns, for every sequence of pattern characters, exactly what a reference parser written '
+            'from XCU 2.13.1 / XBD 9.3.5 returns: ? * [ special only when unquoted, ] closes a bracket unless first, leading ! or ^ '
+            'complements, member - member is a range only around an UNQUOTED hyphen (finding F2, fixed), an unclosed [ is a literal '
+            'character, quoted characters are plain members (inner [. .] [= =] [: :] expressions assumed). '
+            'Kani checks the same per-character contract by concrete execution over every ASCII character for the emitters whose '
+            'bodies Verus cannot take (BracketAtom::fmt_regex / fmt_regex_single with one-character collating symbols and '
+            'equivalence classes), and that an unclosed [ is literal. NOT checked: BracketAtom::parse_inner (builds Strings), '
+            'Bracket::fmt_regex (the [ ^ ... ] frame and the multi-character alternation), the regex engine, anchoring and '
+            'find/rfind in lib.rs, trim_value / case.'),
         'trusted_base': ['Kani 0.68.0 + CBMC 6.11', 'Verus 0.2026.09.13 + Z3', 'regex-syntax 0.8 grammar facts (assumed)'],
         'assumptions': [
             'the language equality pattern <-> regex is delegated to the regex crate, which is not verified',
-            'ASCII only; characters >= 0x80 are not covered by the per-character harnesses',
+            'regex-syntax 0.8: outside a class exactly \\ . + * ? ( ) | [ ] { } ^ $ are special, inside a class exactly \\ [ ] ^ - & ~, and backslash + c denotes c exactly for its meta characters (assumed contract on the dependency)',
+            'std::fmt::Write is modelled by a trait whose write_char/write_str append and never fail (as String does); `&mut dyn Write` parameters are checked as generic parameters (rewrite rule dyn-to-generic); str::contains(char) is membership',
+            'BracketAtom::parse_inner is external_body (assumed: consumes a non-empty prefix, never yields a plain character); cloning an iterator yields the same remaining items; the blanket From<T> for BracketItem wraps an atom (std reflexive From); ghost annotations (entry snapshots, lemma calls at the end of loop bodies) are spliced into Bracket::parse and Ast::new::inner',
+            'BracketAtom::fmt_regex, fmt_regex_single and Bracket::fmt_regex are external_body in the Verus unit (string iteration, format_args!, for loops): assumed there, bounded-checked by Kani for characters and one-character symbols',
         ],
     },
     'C07': {
